@@ -89,7 +89,7 @@ def collect(results, specs_path, summary):
 def st_hist_random(tier, seed, d):
     os.makedirs(d, exist_ok=True)
     specs = os.path.join(d, "specs.ndjson")
-    n = {"quick": 1, "thorough": 25}[tier]
+    n = {"quick": 1, "thorough": 20}[tier]
     plan = [("random", 110 * n), ("crash", 30 * n), ("floats", 20 * n), ("single", 20 * n),
             ("deliver", 40 * n), ("fail", 30 * n), ("damage", 30 * n), ("arrays", 40 * n), ("travel", 24 * n)]
     base = 0
@@ -217,7 +217,7 @@ def st_kv(tier, seed, d):
     os.makedirs(d, exist_ok=True)
     tmp = os.path.join(OUT, "tmp", "kv_%d" % os.getpid())
     os.makedirs(tmp, exist_ok=True)
-    nseq, nops = (60, 60) if tier == "quick" else (1500, 200)
+    nseq, nops = (60, 60) if tier == "quick" else (400, 150)
     p = subprocess.run([vlib.MVH, "kv", "--out", d, "--tmp", tmp, "--seed", str(seed), "--seqs", str(nseq), "--ops", str(nops),
                         "--shards", "12"], stdout=subprocess.PIPE, stderr=subprocess.STDOUT, text=True)
     shutil.rmtree(tmp, ignore_errors=True)
@@ -276,7 +276,7 @@ def multi_stage(dim):
         import subprocess
         os.makedirs(d, exist_ok=True)
         base = os.path.join(d, "base.ndjson")
-        n = (60 if tier == "quick" else 1500)
+        n = (60 if tier == "quick" else 400)
         open(base, "w").close()
         k = 0
         # (no "deliver"/"copy" here: item names depend on hash order, so file-by-file delivery orders are not comparable across runs)
@@ -454,7 +454,7 @@ def st_mc_merge(tier, seed, d):
 
 STAGES = {"hist_random": st_hist_random, "fn_merge": fn_stage("merge"), "fn_diff": fn_stage("diff"),
           "fn_revision": fn_stage("revision"), "fn_revtree": fn_stage("revtree"), "mc_merge": st_mc_merge,
-          "mc_quick": mc_stage("MC_quick.cfg", 300, 6000, 24, 400),
+          "mc_quick": mc_stage("MC_quick.cfg", 300, 3000, 24, 200),
           "mc_core": mc_stage("MC_core.cfg", 300, 4000, 0, 100, workers=14), "mc_crash": mc_stage("MC_crash.cfg", 300, 4000, 0, 100, workers=14),
           "mc_resolve": mc_stage("MC_resolve.cfg", 300, 4000, 0, 200, workers=14), "mc_travel": mc_stage("MC_travel.cfg", 300, 4000, 0, 200, workers=14),
           "mc_damage": mc_stage("MC_damage.cfg", 300, 4000, 0, 0, workers=14), "mc_two_arrays": mc_stage("MC_two_arrays.cfg", 300, 3000, 0, 100, workers=14),
